@@ -110,7 +110,27 @@ def leafMax : Leaf → Option Nat
   | .lvl _ => some 255
   | .bool _ => some 1
   | .enumT _ _ vals => some (vals.foldl max 0)
+  | .dateTime => some 4294967295
+  | .packedGuid => some (256 ^ 8 - 1)
   | _ => none
+
+mutual
+/-- ids of the fields a member list binds (at its own level and inside conditional arms / optionals) -/
+def idsM : Member → List Nat
+  | .field id _ _ => [id]
+  | .ifs _ bs => idsB bs
+  | .endless _ _ => []
+  | .optional ms => idsMs ms
+def idsB : Branches → List Nat
+  | .els ms => idsMs ms
+  | .cons _ ms bs => idsMs ms ++ idsB bs
+def idsMs : Members → List Nat
+  | .nil => []
+  | .cons m ms => idsM m ++ idsMs ms
+end
+
+/-- forget what is known about ids that a conditional arm may have re-bound -/
+def SEnv.forget (se : SEnv) (ids : List Nat) : SEnv := se.filter fun p => !ids.contains p.1
 
 mutual
 def boundsTy (L : Limits) : Ty → SEnv → Bounds
@@ -125,9 +145,9 @@ def boundsM (L : Limits) : Member → SEnv → Bounds × SEnv
         | .leaf l => (match leafMax l with | some m => (id, m) :: se | none => se)
         | _ => se
       (boundsTy L t se, se')
-  | .ifs _ bs, se => (boundsB L bs se, se)
+  | .ifs _ bs, se => (boundsB L bs se, se.forget (idsB bs))
   | .endless _ _, se => (⟨0, some L.endlessMax⟩, se)      -- the published limit of an endless array (u16::MAX bytes)
-  | .optional ms, se => (⟨0, (boundsMs L ms se).hi⟩, se)
+  | .optional ms, se => (⟨0, (boundsMs L ms se).hi⟩, se.forget (idsMs ms))
 
 def boundsB (L : Limits) : Branches → SEnv → Bounds
   | .els ms, se => boundsMs L ms se
